@@ -241,7 +241,7 @@ theorem step_attach {xf xi d} (hl : ∀ q, (fd, true, q) ∉ a.cFUQ) :
     StepS xf xi d a (a.attach key fd e.conn) := by
   obtain ⟨hbyQ, hall, hlc, hsrv, hcl, hsock, hnk, hnfd, hncl, hrs, hpt, hdt, hflt, hbt, hpo⟩ :=
     attach_other (a := a) (key := key) (fd := fd) (oldc := e.conn)
-  refine StepS.of_same hflt hncl hnk attach_qKO attach_idx hcl hpt ?_
+  refine StepS.of_same hflt hncl hnk attach_qKO attach_idx hcl hpt ?_ hdt hlc hall
   intro fd' q hm _
   rw [attach_cFUQ]
   have hne : fd' ≠ fd := fun he => hl q (he ▸ hm)
